@@ -112,7 +112,12 @@ def correspondence(ctx):
         "(impl = model = hand-written reference canonicaliser over hand-written field names), DSSE payload bytes (impl = model), DSSE payload "
         "property (valid JSON, decodes to the fields set, LoadMetadata of the dumped envelope returns the same metadata); plus pairs differing "
         "in exactly one field (bytes must differ), re-serialisations of the dumped metablock with shuffled members / white space / escapes "
-        "through both loaders (bytes must be equal), and 13 repository fixtures with stored signatures. value level: random generic values "
+        "through both loaders (bytes must be equal), 13 repository fixtures with stored signatures, and the signing operations with real keys "
+        "(rsa/ecdsa/ed25519 pool of harness/lib): for every class of number the canonical form cannot carry (fractions, exponent forms, float32, "
+        "max float, integers beyond int64 as float64 or uint64; direct, in a list, in a map, nested; in by-products or environment) "
+        "Metablock.Sign must return an error and append no signature, Envelope.SetPayload must refuse, Metablock.VerifySignature must refuse "
+        "signatures made over the empty string / json.Marshal bytes / another link; for the canonicalisable neighbour the signature must verify "
+        "with Go's crypto directly over the reference canonical bytes and not over the empty string. value level: random generic values "
         "through cjson.EncodeCanonical and through SetPayload of a link carrying them, and JSON texts (half of them damaged) through "
         "json.Valid+Decoder(UseNumber), against the extracted model. non-trivial = every case (no case is a constant input); distinct = distinct input JSON / input line")
     _value_level(ctx, binp, 20000 if ctx.tier == 'quick' else 600000, corr)
